@@ -66,18 +66,23 @@ def crashState (fs : FS) (backups : Int) (j : Nat) : FS := exec fs ((steps fs ba
 /-! ### faults of a rename (not crashes)
 
 `atomic_replace` retries a failing `os.replace`; a failed attempt changes nothing.  If the rename
-keeps failing (or fails with an errno that is not retried) its clean-up **unlinks the source**
-(`tmp_path.unlink()` — written for temp files, but `rotate_one` passes the generation itself) and
-re-raises, which ends the rotation. -/
+keeps failing (or fails with an errno that is not retried) the error is re-raised, which ends the
+rotation.  `rotate_one` calls the helper with `unlink_on_failure=False`, so the source generation
+stays where it was (the helper's default clean-up, meant for temp files, unlinks its source —
+`unlinkSourceState` below is that behaviour, kept to show what the monitors reject). -/
 
 /-- steps where step `i` is preceded by `fails[i]` failed attempts that are retried. -/
 def execRetried (fs : FS) : List (Step × Nat) → FS
   | [] => fs
   | (s, k) :: rest => execRetried (apply (Nat.repeat id k fs) s) rest
 
-/-- state after the rename at step index `j` failed for good: the first `j` steps done, then the
-source of step `j` unlinked by `atomic_replace`'s clean-up (a failing `os.remove` just raises). -/
-def failState (fs : FS) (backups : Int) (j : Nat) : FS :=
+/-- state after the rename at step index `j` failed for good: the first `j` steps done, the
+failing step not done, its source kept — the same state as a crash before step `j`. -/
+def failState (fs : FS) (backups : Int) (j : Nat) : FS := crashState fs backups j
+
+/-- what a helper that unlinks its source on failure would leave (the defect fixed by
+`unlink_on_failure=False`; regression witness). -/
+def unlinkSourceState (fs : FS) (backups : Int) (j : Nat) : FS :=
   match (steps fs backups)[j]? with
   | some (.mv s _) => apply (crashState fs backups j) (.rm s)
   | _ => crashState fs backups j
